@@ -198,7 +198,7 @@ def rule_decoder_total(ctx, config='dev'):
     r = RuleResult('DECODER-TOTAL', 'decode_mappings / decoded_mappings terminate without panicking on every string: every '
                                     'panic-capable MIR terminator in the decoder cone is discharged by a local range argument and '
                                     'the only loop consumes a slice iterator')
-    r.floor = 20 if config == 'dev' else 10
+    r.floor = 12 if config == 'dev' else 8
     r.assumptions.append('mappings strings shorter than 2^32-1 bytes (per-byte counters: generated line, value position)')
     entry = [b for b in f.body_list if b.name == 'decode_mappings' and b.d.get('pub') and b.promoted is None]
     if len(entry) != 1:
